@@ -16,5 +16,6 @@ MCSeeds == {
 MCIds == 1..2
 MCOps == {"New", "NewRefused", "Fill", "FillHalf", "Add", "IAdd", "Sub", "ISub", "Mul", "IMul", "Div", "IDiv", "Normalize", "Merge", "SetDtype", "SetDtypeRefused"}
 MCSliceArgs == {<<1, NoneIx>>}
+MCTakeArgs == {<<0>>}
 MCScalars == {<<2, 1, "pyint">>, <<1, 2, "pyfloat">>}
 =============================================================================
